@@ -165,6 +165,64 @@ def creation_rows():
     return rows
 
 
+def gen_save_shape(ctx):
+    """Who may change the compression code of a stored stream, and what `PSDImage.save` does to the merged image after it
+    compressed it: regenerated from the AST -> Generated/C03Save.lean (`C03Pixels.declared_code_tied`). The model's `save`
+    stores `setData comp planes header`: code and payload come from ONE call."""
+    root = core.REPO / "src" / "psd_tools"
+    stores = []
+    for f in sorted(root.rglob("*.py")):
+        try:
+            tree = ast.parse(f.read_text())
+        except Exception:  # noqa
+            stores.append(str(f.relative_to(root)) + ":<unparsable>")
+            continue
+        for fn in [n for n in ast.walk(tree) if isinstance(n, (ast.FunctionDef, ast.AsyncFunctionDef))]:
+            for n in ast.walk(fn):
+                tg = []
+                if isinstance(n, ast.Assign):
+                    tg = n.targets
+                elif isinstance(n, (ast.AugAssign, ast.AnnAssign)):
+                    tg = [n.target]
+                elif isinstance(n, ast.Call) and getattr(n.func, "id", "") == "setattr" and len(n.args) >= 2 \
+                        and isinstance(n.args[1], ast.Constant) and n.args[1].value == "compression":
+                    stores.append("%s:%s:setattr" % (f.relative_to(root), fn.name))
+                for t in tg:
+                    for x in ast.walk(t):
+                        if isinstance(x, ast.Attribute) and x.attr == "compression" and isinstance(x.ctx, ast.Store):
+                            stores.append("%s:%s:%s" % (f.relative_to(root), fn.name, ast.unparse(x)))
+    set_calls, after = [], []
+    try:
+        tree = ast.parse((root / "api" / "psd_image.py").read_text())
+        save = next(n for n in ast.walk(tree) if isinstance(n, ast.FunctionDef) and n.name == "save")
+        line = None
+        for n in ast.walk(save):
+            if isinstance(n, ast.Call) and getattr(n.func, "attr", "") == "set_data":
+                set_calls.append(ast.unparse(n))
+                line = n.lineno if line is None else min(line, n.lineno)
+        for n in ast.walk(save):
+            if isinstance(n, (ast.Assign, ast.AugAssign, ast.AnnAssign)) and line is not None and n.lineno > line:
+                for t in (n.targets if isinstance(n, ast.Assign) else [n.target]):
+                    if isinstance(t, (ast.Attribute, ast.Subscript)):
+                        after.append(ast.unparse(t))
+    except Exception as e:  # noqa
+        set_calls.append("<PSDImage.save not found: %s>" % type(e).__name__)
+
+    def ls(xs):
+        return "[" + ", ".join('"' + x.replace("\\", "\\\\").replace('"', '\\"') + '"' for x in xs) + "]"
+    ctx.write_generated(
+        "C03Save",
+        "namespace PsdVerif.Generated.C03Save\n"
+        "/-- every assignment to an attribute named `compression` inside a function of psd_tools (file:function:target) -/\n"
+        f"def compressionStores : List String := {ls(sorted(set(stores)))}\n"
+        "/-- the `set_data` calls of `PSDImage.save` -/\n"
+        f"def saveSetData : List String := {ls(set_calls)}\n"
+        "/-- attribute / item assignments of `PSDImage.save` after that call -/\n"
+        f"def saveStoresAfterSetData : List String := {ls(after)}\n"
+        "end PsdVerif.Generated.C03Save\n")
+    return {"compression_stores": sorted(set(stores)), "save_set_data": set_calls, "save_stores_after": after}
+
+
 def gen_creation(ctx):
     try:
         rows = creation_rows()
